@@ -27,10 +27,14 @@ type Solver struct {
 	record  bool
 	script  strings.Builder
 	bin     []string
+	inPush  int
+	FallbackMs     int
+	PrimaryUnknown int
+	FallbackUsed   map[string]int
 }
 
 func NewSolver(timeoutMs int, record bool) (*Solver, error) {
-	s := &Solver{TimeoutMs: timeoutMs, record: record, bin: []string{"z3", "-in"}}
+	s := &Solver{TimeoutMs: timeoutMs, record: record, bin: []string{"z3", "-in"}, FallbackUsed: map[string]int{}}
 	if err := s.start(); err != nil {
 		return nil, err
 	}
@@ -66,10 +70,86 @@ func (s *Solver) Close() {
 	}
 }
 
+// fallback re-decides a query the primary solver gave up on with a portfolio
+// of one-shot solvers over the recorded base script (declarations,
+// definitions, assertions of the current path).
+func (s *Solver) fallback(extra *Term, wantModel []*Term) (string, []*big.Int, string) {
+	if s.FallbackMs <= 0 {
+		return "", nil, ""
+	}
+	var sb strings.Builder
+	sb.WriteString("(set-logic ALL)\n")
+	sb.WriteString(s.script.String())
+	if extra != nil {
+		sb.WriteString("(assert " + extra.ref() + ")\n")
+	}
+	sb.WriteString("(check-sat)\n")
+	if len(wantModel) > 0 {
+		var names []string
+		for _, v := range wantModel {
+			names = append(names, v.ref())
+		}
+		sb.WriteString("(get-value (" + strings.Join(names, " ") + "))\n")
+	}
+	f, err := os.CreateTemp("", "verifq-*.smt2")
+	if err != nil {
+		return "", nil, ""
+	}
+	defer os.Remove(f.Name())
+	f.WriteString(sb.String())
+	f.Close()
+	if d := os.Getenv("VERIF_DUMPQ"); d != "" {
+		dumpCounter++
+		os.WriteFile(fmt.Sprintf("%s/q%d_%d.smt2", d, os.Getpid(), dumpCounter), []byte(sb.String()), 0o644)
+	}
+	secs := fmt.Sprint((s.FallbackMs + 999) / 1000)
+	cmds := [][]string{
+		{"cvc5", "--solve-bv-as-int=sum", "--produce-models", "--tlimit=" + fmt.Sprint(s.FallbackMs), f.Name()},
+		{"z3-new", "-T:" + secs, f.Name()},
+		{"cvc5", "--produce-models", "--tlimit=" + fmt.Sprint(s.FallbackMs), f.Name()},
+	}
+	for _, c := range cmds {
+		out, _ := exec.Command("timeout", append([]string{fmt.Sprint(s.FallbackMs/1000 + 5)}, c...)...).Output()
+		txt := string(out)
+		lines := strings.SplitN(strings.TrimSpace(txt), "\n", 2)
+		if len(lines) == 0 {
+			continue
+		}
+		switch strings.TrimSpace(lines[0]) {
+		case "unsat":
+			return "unsat", nil, c[0] + c[1]
+		case "sat":
+			var model []*big.Int
+			if len(wantModel) > 0 && len(lines) > 1 {
+				vals := parseValues(lines[1])
+				for k := range wantModel {
+					if k < len(vals) {
+						model = append(model, vals[k])
+					} else {
+						model = append(model, big.NewInt(0))
+					}
+				}
+			}
+			return "sat", model, c[0] + c[1]
+		}
+	}
+	return "", nil, ""
+}
+
+func baseLine(cmd string) bool {
+	return !(strings.HasPrefix(cmd, "(push") || strings.HasPrefix(cmd, "(pop") || strings.HasPrefix(cmd, "(check-sat") ||
+		strings.HasPrefix(cmd, "(get-value") || strings.HasPrefix(cmd, "(reset") || strings.HasPrefix(cmd, "(set-option"))
+}
+
 func (s *Solver) send(cmd string) {
-	if s.record {
+	if s.inPush == 0 && baseLine(cmd) {
 		s.script.WriteString(cmd)
 		s.script.WriteByte('\n')
+	}
+	if strings.HasPrefix(cmd, "(push") {
+		s.inPush++
+	} else if strings.HasPrefix(cmd, "(pop") {
+		s.inPush--
 	}
 	io.WriteString(s.in, cmd)
 	io.WriteString(s.in, "\n")
@@ -207,6 +287,13 @@ func (s *Solver) Check(extra *Term, wantModel []*Term) (string, []*big.Int) {
 		}
 	}
 	s.send("(pop 1)")
+	if res == "unknown" {
+		s.PrimaryUnknown++
+		if r2, m2, who := s.fallback(extra, wantModel); r2 != "" {
+			res, model = r2, m2
+			s.FallbackUsed[who]++
+		}
+	}
 	if res == "error" {
 		s.Close()
 		s.start()
@@ -344,3 +431,5 @@ func tokenize(s string) []string {
 	}
 	return toks
 }
+
+var dumpCounter int
